@@ -22,7 +22,8 @@ use crate::common::{CaseResult, Ctx, Rng, Tier};
 const RULE: &str = "cases = op sequences on a fresh h1::Payload::create(eof) pair: every sequence over \
 {fd:1 fd:32768 fe se:ovf ds nr:1 pn:0 ur:1 dr} up to depth 5 (6 thorough), every sequence over a 17-token alphabet \
 (chunk sizes 0,1,32767,32768,40000; two errors; same/different wakers for reader and feeder; is_dropped) up to depth 3 (4), \
-both also from create(true) at depth<=3, plus seeded random sequences up to length 200 in five profiles (streaming, \
+both also from create(true) at depth<=3, every sequence over {fd:32768 fe se:ovf ds nr:1 pn:0 dr} up to depth 6 (7), \
+reader-side sequences on actix_http::Payload::from(Bytes) of 0/1/10/32768/40000 bytes, plus seeded random sequences up to length 200 in five profiles (streaming, \
 back-pressure around 32 KiB, endings, handle drops, uniform), half of them through the actix_http::Payload::H1 wrapper; \
 a case is non-trivial if a sender op was accepted and a poll returned something; distinct = distinct (case, output) hashes";
 
@@ -168,9 +169,20 @@ fn run(line: &str) -> CaseResult {
     let wakers: Vec<Waker> = arcs.iter().map(|a| Waker::from(a.clone())).collect();
     let base: Vec<usize> = arcs.iter().map(Arc::strong_count).collect();
 
-    let (sender, payload) = actix_http::h1::Payload::create(eof);
-    let mut sender = Some(sender);
-    let mut reader = Some(if wrap { Reader::Wrapped(actix_http::Payload::from(payload)) } else { Reader::H1(payload) });
+    // from=<n>: `actix_http::Payload::from(Bytes)` (src/payload.rs) instead of a create() pair
+    let from: Option<usize> = words
+        .iter()
+        .find_map(|w| w.strip_prefix("from="))
+        .and_then(|v| v.parse().ok())
+        .filter(|n| *n <= MAX_CHUNK);
+    let (mut sender, mut reader) = match from {
+        Some(n) => (None, Some(Reader::Wrapped(actix_http::Payload::from(chunk(MAX_CHUNKS - 1, n))))),
+        None => {
+            let (sender, payload) = actix_http::h1::Payload::create(eof);
+            let reader = if wrap { Reader::Wrapped(actix_http::Payload::from(payload)) } else { Reader::H1(payload) };
+            (Some(sender), Some(reader))
+        }
+    };
 
     let mut o = Oracle {
         sender_alive: true,
@@ -183,9 +195,17 @@ fn run(line: &str) -> CaseResult {
         parked_feeder: None,
         fails: Vec::new(),
     };
-    let mut made: Vec<(usize, usize)> = Vec::new();
-    let mut outs: Vec<String> = Vec::with_capacity(ops.len());
     let mut tags: Vec<String> = Vec::new();
+    let mut made: Vec<(usize, usize)> = Vec::new();
+    if let Some(n) = from {
+        // ground truth for From<Bytes>: a complete body of exactly these bytes, no feeder
+        o.sender_alive = false;
+        o.eof_signalled = true;
+        o.pending.extend(chunk(MAX_CHUNKS - 1, n).iter());
+        made.push((MAX_CHUNKS - 1, n));
+        tags.push("from-bytes".into());
+    }
+    let mut outs: Vec<String> = Vec::with_capacity(ops.len());
     let mut k = 0usize; // data-carrying tokens seen
     let mut accepted_sender_op = false;
     let mut poll_answered = false;
@@ -203,7 +223,7 @@ fn run(line: &str) -> CaseResult {
         // ---- run the op on the real code
         let res: String = match parts.as_slice() {
             ["fd", n] => match n.parse::<usize>() {
-                Ok(n) if n <= MAX_CHUNK && my_k < MAX_CHUNKS => match sender.as_mut() {
+                Ok(n) if n <= MAX_CHUNK && my_k < MAX_CHUNKS - 1 => match sender.as_mut() {
                     Some(s) => {
                         let b = chunk(my_k, n);
                         if both {
@@ -219,7 +239,7 @@ fn run(line: &str) -> CaseResult {
                 _ => "bad-op".into(),
             },
             ["ur", n] => match n.parse::<usize>() {
-                Ok(n) if n <= MAX_CHUNK && my_k < MAX_CHUNKS => match reader.as_mut() {
+                Ok(n) if n <= MAX_CHUNK && my_k < MAX_CHUNKS - 1 => match reader.as_mut() {
                     Some(r) => {
                         let b = chunk(my_k, n);
                         made.push((my_k, n));
@@ -463,7 +483,7 @@ fn run(line: &str) -> CaseResult {
         tags.push("yielded".into());
     }
     let mut r = CaseResult::ok(outs.join(" "));
-    r.nontrivial = accepted_sender_op && poll_answered;
+    r.nontrivial = (accepted_sender_op || from.is_some()) && poll_answered;
     tags.sort();
     tags.dedup();
     r.tags = tags;
@@ -508,6 +528,9 @@ const WIDE: &[&str] = &[
     "fd:0", "fd:1", "fd:32767", "fd:32768", "fd:40000", "fe", "se:ovf", "se:inc", "ds", "nr:0", "nr:1", "pn:0",
     "pn:2", "ur:1", "ur:40000", "dr", "isd",
 ];
+/// depth-7 alphabet (DESIGN: "exhaustive to depth 7"): one chunk size at the limit, both endings,
+/// both drops, both polls
+const TINY: &[&str] = &["fd:32768", "fe", "se:ovf", "ds", "nr:1", "pn:0", "dr"];
 const SIZES: &[usize] = &[0, 1, 2, 100, 4096, 16384, 32767, 32768, 32769, 40000, 65536];
 const ERRS: &[&str] = &["inc", "inci", "enc", "ovf", "unk", "io"];
 
@@ -520,6 +543,9 @@ fn random_case(rng: &mut Rng) -> String {
     }
     if rng.chance(1, 2) {
         toks.push("wrap=1".into());
+    }
+    if rng.chance(1, 25) {
+        toks.push(format!("from={}", rng.pick(SIZES)));
     }
     let size = |rng: &mut Rng, big: bool| -> usize {
         if big {
@@ -570,9 +596,9 @@ fn random_case(rng: &mut Rng) -> String {
 }
 
 fn gen(ctx: &Ctx) -> Vec<String> {
-    let (d_small, d_wide) = match ctx.tier {
-        Tier::Quick => (5, 3),
-        _ => (6, 4),
+    let (d_small, d_wide, d_tiny) = match ctx.tier {
+        Tier::Quick => (5, 3, 6),
+        _ => (6, 4, 7),
     };
     let mut cases = Vec::new();
     if ctx.tier != Tier::Burst {
@@ -580,6 +606,10 @@ fn gen(ctx: &Ctx) -> Vec<String> {
         enumerate(WIDE, d_wide, "", &mut cases);
         enumerate(SMALL, 3, "eof=1", &mut cases);
         enumerate(SMALL, 3, "wrap=1", &mut cases);
+        enumerate(TINY, d_tiny, "", &mut cases);
+        for n in [0usize, 1, 10, 32768, 40000] {
+            enumerate(&["pn:0", "ur:1", "nr:1", "dr", "fd:1", "isd"], 3, &format!("from={}", n), &mut cases);
+        }
     }
     let mut rng = Rng::new(ctx.seed);
     for _ in 0..ctx.budget(6000) {
